@@ -16,6 +16,7 @@ import (
 	"math/rand"
 	"sort"
 	"strings"
+	"sync"
 	"time"
 
 	"verifharness/core"
@@ -364,10 +365,12 @@ func init() {
 				Traces int               `json:"traces"`
 				NBad   int               `json:"nbad"`
 				Bad    []json.RawMessage `json:"bad"`
+				Labels [][]any           `json:"labels"`
 			}
 			if err := json.Unmarshal(drv, &d); err != nil || d.Traces != len(o.Runs) {
 				return core.Disagree("malformed replay answer: " + string(drv))
 			}
+			c13LabelAdd(d.Labels)
 			if d.NBad > 0 {
 				return core.Disagree(fmt.Sprintf("%d of %d real traces are not traces of Trav.step?: %s", d.NBad, d.Traces, d.Bad[0]))
 			}
@@ -684,4 +687,64 @@ func runC13(ctx *core.Ctx) {
 	}
 	// 5. the glue around walk (CollectInDependencyOrder): plan correspondence + oracle on general projects with options
 	c13PlanCases(ctx)
+	// 6. label coverage of the tie: every rule of Trav.step?, and every branch of the rules that have two, must have been
+	//    taken by some real schedule that the model accepted; a branch never reached is a hole in the tie (soft: counted)
+	ctx.Wait()
+	c13LabelReport(ctx)
+}
+
+// ---------------------------------------------------------------- label coverage (filled by the trav.sched judge)
+
+// the rules / branches of Trav.step? as Ops/C13.lean branchOf names them.  Not listed, because unreachable: the caller
+// only tries vertices without prerequisite, which the coordinator never tries — `ready.M:not-ready`, `enter.M:lost`.
+var c13LtsBranches = []string{
+	"schedNext.M", "schedNext.C", "schedEnd.M", "schedEnd.C",
+	"ready.M:ready", "ready.C:ready", "ready.C:not-ready",
+	"enter.M:claimed", "enter.C:claimed", "enter.C:lost",
+	"spawn.M", "spawn.C",
+	"wBegin:visit", "wBegin:skipped", "wReturn:ok", "wReturn:err", "wDone", "wSend",
+	"wExit:ok", "wExit:first-error", "wExit:later-error",
+	"cRecv:continue", "cRecv:last", "cCtxDone", "extCancel",
+}
+
+var (
+	c13LabelMu     sync.Mutex
+	c13LabelCounts = map[string]int{}
+)
+
+func c13LabelAdd(rows [][]any) {
+	c13LabelMu.Lock()
+	defer c13LabelMu.Unlock()
+	for _, r := range rows {
+		if len(r) != 2 {
+			continue
+		}
+		k, _ := r[0].(string)
+		n, _ := r[1].(float64)
+		c13LabelCounts[k] += int(n)
+	}
+}
+
+func c13LabelReport(ctx *core.Ctx) {
+	c13LabelMu.Lock()
+	defer c13LabelMu.Unlock()
+	known := map[string]bool{}
+	for _, b := range c13LtsBranches {
+		known[b] = true
+		n := c13LabelCounts[b]
+		if n == 0 {
+			ctx.Count("lts-label-never-reached:" + b)
+			ctx.Note("label coverage: no accepted real schedule took %s", b)
+			continue
+		}
+		// the histogram is printed in steps (Count adds one at a time): thousands of steps per branch
+		for i := 0; i < (n+999)/1000; i++ {
+			ctx.Count("lts-label-ksteps:" + b)
+		}
+	}
+	for k, n := range c13LabelCounts {
+		if !known[k] && n > 0 {
+			ctx.Count("lts-label-unexpected:" + k) // a branch the model documentation calls unreachable was taken
+		}
+	}
 }
